@@ -102,4 +102,56 @@ BuildCompP(a, eps, nchunks, sentinel, up) ==
       clampok |-> \A i \in 2..m : raw[i - 1] + 1 <= nn - 1,
       upshift |-> \E i \in 2..m : raw[i] < raw[i - 1] + 1]
 
+(***************************************************************************)
+(* The recursive index (EpsilonRecursive > 0): upper levels are sequential *)
+(* segmentations, with epsrec, of the first keys of the level below until  *)
+(* one segment is left; merge_slopes runs over the segments of ALL levels  *)
+(* (bottom level first); the top segment is kept as root_slope /           *)
+(* root_intercept (get_floating_point_segment, integer branch = SegOf),    *)
+(* every other level becomes a CompressedLevel whose intercepts are        *)
+(* clamped against the size of the level below it.                         *)
+(***************************************************************************)
+LevelFrom(ms, table, map, raw, from, cnt, prevSize, lastKey, sentinel) ==
+  LET offset == raw[from]
+      extra == table[map[from + cnt - 1]][2] = 0
+      stored == [i \in 1..cnt |-> IF i = 1 THEN 0 ELSE ClampV(raw[from + i - 1], raw[from + i - 2] + 1, prevSize - 1) - offset]
+      maxI == prevSize - offset + 2
+      positions == stored \o (IF extra THEN <<maxI - 2>> ELSE <<>>) \o <<maxI - 1>>
+  IN [keys |-> [i \in 1..cnt |-> ms[from + i - 1].firstX] \o (IF extra THEN <<lastKey + 1>> ELSE <<>>) \o <<sentinel>>,
+      slopes |-> [i \in 1..cnt |-> table[map[from + i - 1]]] \o (IF extra THEN <<table[1]>> ELSE <<>>),
+      ics |-> [i \in 1..Len(positions) |-> offset + positions[i]],
+      size |-> cnt + (IF extra THEN 1 ELSE 0),
+      positions |-> positions, maxI |-> maxI,
+      clampok |-> \A i \in 2..cnt : raw[from + i - 2] + 1 <= prevSize - 1,
+      upshift |-> \E i \in 2..cnt : raw[from + i - 1] < raw[from + i - 2] + 1]
+
+\* sequences of builder states, one per level, bottom first, until a level has a single segment
+RECURSIVE LevelStates(_, _, _)
+LevelStates(lv, epsrec, fuel) ==
+  LET top == lv[Len(lv)] IN
+  IF Len(top) <= 1 \/ fuel = 0 THEN lv
+  ELSE LET keys == [i \in 1..Len(top) |-> top[i].firstX]
+       IN LevelStates(Append(lv, FlatStates(Build(keys, 1, epsrec), 1, epsrec)), epsrec, fuel - 1)
+RECURSIVE ConcatAll(_, _)
+ConcatAll(lv, j) == IF j > Len(lv) THEN <<>> ELSE lv[j] \o ConcatAll(lv, j + 1)
+RECURSIVE OffsetOf(_, _)
+OffsetOf(lv, j) == IF j <= 1 THEN 0 ELSE OffsetOf(lv, j - 1) + Len(lv[j - 1])      \* number of segments below level j (1-based)
+
+BuildCompRecP(a, eps, epsrec, sentinel, up) ==
+  LET nn == Len(a)
+      lv == LevelStates(<<FlatStates(Build(a, 1, eps), 1, eps)>>, epsrec, 10)
+      h == Len(lv)                                  \* n_levels
+      ms == ConcatAll(lv, 1)
+      merged == MergeSlopes(ms)
+      table == merged[1]
+      map == merged[2]
+      raw == [i \in 1..Len(ms) |-> RawIntercept(ms[i], table[map[i]], up)]
+      rootSeg == SegOf(lv[h][1])
+      \* stored levels top-down: level h-1 (below the root), ..., level 1 (bottom); with h = 1 the bottom level is not stored
+      stored == [t \in 1..(h - 1) |-> LET j == h - t IN      \* j = 1-based level, 1 = bottom
+                   LevelFrom(ms, table, map, raw, OffsetOf(lv, j) + 1, Len(lv[j]), IF j = 1 THEN nn ELSE Len(lv[j - 1]), a[nn], sentinel)]
+  IN [root |-> rootSeg, rootRange |-> IF h = 1 THEN nn ELSE Len(lv[h - 1]), levels |-> stored, height |-> h,
+      clampok |-> \A t \in 1..(h - 1) : stored[t].clampok,
+      upshift |-> \E t \in 1..(h - 1) : stored[t].upshift]
+
 =============================================================================
